@@ -160,12 +160,12 @@ GArr == \E k \in ArrLens :
           /\ Step(Append(Cut(k), E(NArr(ArgsE(k)), "[]any")))
 
 MapKeys == <<"a", "b", "c">>
-GMap == \E k \in MapLens :
+GMapL == \E k \in MapLens :
           /\ Len(stk) >= k /\ AllE(k)
           /\ Step(Append(Cut(k), E(NMap(SubSeq(MapKeys, 1, k), ArgsE(k)), "map[string]any")))
 
 GNext == \/ GLeaf \/ GElem \/ GUn \/ GBin \/ GCond \/ GProp \/ GIdx \/ GSlice
-         \/ GCall \/ GMeth \/ GLen \/ GOpen \/ GClose \/ GArr \/ GMap
+         \/ GCall \/ GMeth \/ GLen \/ GOpen \/ GClose \/ GArr \/ GMapL
 
 Complete == Len(stk) = 1 /\ stk[1].m = "e"
 Tree == stk[1].e
